@@ -239,6 +239,18 @@ class Fn:
                 out = [t['target']]
             elif k == 'SwitchInt':
                 out = [x[1] for x in t['targets']] + [t['otherwise']]
+                d = t['discr']
+                if d.get('k') in ('Copy', 'Move') and not d['place']['proj']:
+                    # temp holding a named constant: `_n = const FORMAT_OUTPUT; switchInt(move _n)`
+                    l = d['place']['local']
+                    asg = [st['rv'] for bb in self.blocks for st in bb['stmts'] if st['k'] == 'Assign' and st['place']['local'] == l and not st['place']['proj']]
+                    calls_ = [bb for bb in self.blocks if bb['term']['k'] == 'Call' and bb['term']['dest']['local'] == l]
+                    if len(asg) == 1 and not calls_ and asg[0]['k'] == 'Use' and asg[0]['op'].get('k') == 'Const' and 'val' in asg[0]['op'] and l > self.nargs:
+                        d = asg[0]['op']
+                if d.get('k') == 'Const' and 'val' in d:
+                    # branch on a compile-time constant (e.g. `if FORMAT_OUTPUT`): only the taken edge exists
+                    hit = [x[1] for x in t['targets'] if x[0] == d['val']]
+                    out = hit[:1] if hit else [t['otherwise']]
             elif k == 'Call':
                 if t['target'] is not None:
                     out = [t['target']]
@@ -941,3 +953,25 @@ def strip(e):
     while isinstance(e, tuple) and e and e[0] == 'call' and len(e[2]) == 1 and any(e[1].endswith(s) or e[3].endswith(s) for s in IDENT):
         e = e[2][0]
     return e
+
+
+def expand(fn, e, depth=0):
+    """replace mutably-borrowed single-definition locals (iterators, builders) by their initialiser so that
+    adapter chains become visible: find(_14, p) -> find(rev(into_iter(x)), p)"""
+    if not isinstance(e, tuple) or depth > 30:
+        return e
+    if e[0] == 'var':
+        ds = fn.defs().get(e[1], [])
+        if len(ds) == 1 and not (1 <= e[1] <= fn.nargs):
+            return expand(fn, fn.expr_of_def(ds[0]), depth + 1)
+        return e
+    out = []
+    for x in e:
+        if isinstance(x, tuple):
+            out.append(expand(fn, x, depth + 1))
+        elif isinstance(x, list):
+            out.append([(y[0], expand(fn, y[1], depth + 1)) if (isinstance(y, tuple) and len(y) == 2 and isinstance(y[0], str) and isinstance(y[1], tuple))
+                        else (expand(fn, y, depth + 1) if isinstance(y, tuple) else y) for y in x])
+        else:
+            out.append(x)
+    return tuple(out)
